@@ -17,7 +17,7 @@ DEFAULT = dict(
     p_group_result=0.25, p_flatten=0.4, p_as=0.12, p_named=0.25,
     p_opt=0.25, p_group_param=0.25, p_soft=0.35, p_obj=0.5, p_nest=0.25,
     p_dup=0.06, p_cycle=0.1, p_unknown_dep=0.08, p_foreign_dep=0.12,
-    n_types=8, early_scopes=0.3, p_multi_dec=0.25, p_group_dec=0.3, p_dec_self=0.85,
+    n_types=8, early_scopes=0.3, p_multi_dec=0.25, p_group_dec=0.3, p_dec_self=0.85, p_one_obj=0.0, p_soft_pattern=0.0,
 )
 
 PROFILES = {
@@ -35,7 +35,7 @@ PROFILES = {
     "keys": dict(p_named=0.6, p_as=0.35, p_group_result=0.4, p_dup=0.2, n_types=3, w_decorate=1, p_fault=0.02),
     "groups": dict(p_group_result=0.7, p_group_param=0.7, p_soft=0.15, p_flatten=0.5, p_as=0.15, n_types=4,
                    w_decorate=0.6, p_fault=0.05, p_export=0.2),
-    "soft": dict(p_group_result=0.6, p_group_param=0.8, p_soft=0.6, n_types=4, w_decorate=0.3, p_fault=0.03),
+    "soft": dict(p_group_result=0.6, p_group_param=0.7, p_soft=0.6, n_types=4, w_decorate=0.3, p_fault=0.03, p_one_obj=0.7, p_soft_pattern=0.35),
     "decor": dict(w_decorate=7, p_multi_dec=0.35, p_group_dec=0.35, n_types=5, p_fault=0.12, w_scope=3),
     "callbacks": dict(p_callback=0.8, p_fault=0.3, w_decorate=3, n_types=6),
     "dry": dict(p_dry=1.0, p_fault=0.0, p_callback=0.2),
@@ -58,6 +58,7 @@ class Gen:
         self.fns = []
         self.ops = []
         self.wanted = []               # (key, consumer fn, consumer's result keys, scope)
+        self.multi = []                # (scope, single key, group key) offered by one multi-result constructor
         self.nfn = 0
 
     # ----- helpers -----
@@ -128,6 +129,9 @@ class Gen:
         named / optional / group leaves must sit in an object"""
         def needs_obj(l):
             return l["k"] == "group" or l.get("name", 0) != 0 or l.get("opt", False)
+        if leaves and self.chance(self.p.get("p_one_obj", 0.0)):
+            # all leaves in one parameter object: soft groups interleaved with ordinary fields
+            return [dict(k="obj", fields=list(leaves))]
         out = []
         cur = []
         for l in leaves:
@@ -257,6 +261,10 @@ class Gen:
         self.ops.append(dict(op="provide", scope=s, fn=f["id"], export=export))
         # bookkeeping (optimistic: assume accepted)
         rk = self.result_keys(f)
+        sk = [k for k in rk if k[0] == "s"]
+        gk = [k for k in rk if k[0] == "g"]
+        if sk and gk:
+            self.multi.append((target, sk[0], gk[0]))
         for k in rk:
             if k[0] == "s":
                 self.prov[target].setdefault(k, f["id"])
@@ -321,6 +329,18 @@ class Gen:
 
     def gen_invoke(self):
         s = self.r.randrange(len(self.parents))
+        if self.multi and self.chance(self.p.get("p_soft_pattern", 0.0)):
+            # one parameter object mixing soft groups with the single result of a
+            # multi-result feeder of the same group, in every field order
+            ts, sk, gk = self.r.choice(self.multi)
+            s = self.r.choice([x for x in range(len(self.parents)) if ts in self.ancestors(x)])
+            fields = [self.leaf_param(gk, soft=True), self.leaf_param(sk, opt=False), self.leaf_param(gk, soft=True)]
+            if self.chance(0.5):
+                fields.append(self.leaf_param(gk, soft=self.chance(0.5)))
+            self.r.shuffle(fields)
+            f = self.new_fn(params=[dict(k="obj", fields=fields)], results=[], err=self.chance(0.5))
+            self.ops.append(dict(op="invoke", scope=s, fn=f["id"]))
+            return
         n = self.r.choice([1, 1, 2, 2, 3])
         pleaves = self.gen_params(s, n)
         if not pleaves and self.chance(0.8):
